@@ -1891,42 +1891,44 @@ theorem rt_names_push {st : PState} {e : Entry} {pm : PMeta} (h : RtAllNames st)
   · exact h x h'
   · simp only [List.mem_singleton] at h'; rw [h']; exact he
 
-theorem rt_visit_names (fs : FS) (cwd : Str) (o : PackOpts) (rules : Option (List Rule)) (root : Str) (fuel : Nat)
-    (ihN : ∀ src dst path node st, RtAllNames st →
+theorem rt_visit_names (fs : FS) (cwd : Str) (rules : Option (List Rule)) (root : Str) (fuel : Nat)
+    (ihN : ∀ (o : PackOpts) src dst path node st, RtAllNames st →
       RtAllNames (walkNode fs cwd o rules root src dst fuel path node st).1) :
-    ∀ src dst path node st, RtAllNames st →
+    ∀ (o : PackOpts) src dst path node st, RtAllNames st →
       RtAllNames (visit fs cwd o rules root src dst (fuel + 1) path node st).1 := by
-  intro src dst path node st hst
+  intro o src dst path node st hst
   cases node <;> rw [visit] <;> first | (intro _ _ h; cases h) | skip
   all_goals simp only [↓reduceIte, Bool.false_eq_true]
   all_goals repeat' split
   all_goals first
     | exact hst
-    | exact ihN _ _ _ _ _ hst
+    | exact ihN _ _ _ _ _ _ hst
     | exact rt_names_push hst ⟨_, _, _, ‹pathRel root (replaceFirst _ _ _) = some _›, ‹_›, Or.inl ⟨rfl, rfl⟩⟩
     | exact rt_names_push hst ⟨_, _, _, ‹pathRel root (replaceFirst _ _ _) = some _›, ‹_›, Or.inr ⟨Or.inl rfl, rfl⟩⟩
     | exact rt_names_push hst ⟨_, _, _, ‹pathRel root (replaceFirst _ _ _) = some _›, ‹_›, Or.inr ⟨Or.inr rfl, rfl⟩⟩
 
-theorem rt_walk_names (fs : FS) (cwd : Str) (o : PackOpts) (rules : Option (List Rule)) (root : Str) :
+/-- (the options are quantified inside the induction: the nested walk into a dereferenced
+directory runs with a longer `visiting` list) -/
+theorem rt_walk_names_all (fs : FS) (cwd : Str) (rules : Option (List Rule)) (root : Str) :
     ∀ fuel : Nat,
-      (∀ src dst path node st, RtAllNames st →
+      (∀ (o : PackOpts) src dst path node st, RtAllNames st →
         RtAllNames (walkNode fs cwd o rules root src dst fuel path node st).1) ∧
-      (∀ src dst path names st, RtAllNames st →
+      (∀ (o : PackOpts) src dst path names st, RtAllNames st →
         RtAllNames (walkChildren fs cwd o rules root src dst fuel path names st).1) ∧
-      (∀ src dst path node st, RtAllNames st →
+      (∀ (o : PackOpts) src dst path node st, RtAllNames st →
         RtAllNames (visit fs cwd o rules root src dst fuel path node st).1) := by
   intro fuel
   induction fuel with
   | zero =>
     refine ⟨?_, ?_, ?_⟩
-    · intro src dst path node st h; rw [walkNode]; exact h
-    · intro src dst path names st h; rw [walkChildren]; exact h
-    · intro src dst path node st h; rw [visit]; exact h
+    · intro o src dst path node st h; rw [walkNode]; exact h
+    · intro o src dst path names st h; rw [walkChildren]; exact h
+    · intro o src dst path node st h; rw [visit]; exact h
   | succ fuel ih =>
     obtain ⟨ihN, ihC, ihV⟩ := ih
     refine ⟨?_, ?_, ?_⟩
-    · intro src dst path node st hst
-      have hv := ihV src dst path node st hst
+    · intro o src dst path node st hst
+      have hv := ihV o src dst path node st hst
       cases node with
       | dir perm mt =>
         rw [walkNode]
@@ -1934,12 +1936,12 @@ theorem rt_walk_names (fs : FS) (cwd : Str) (o : PackOpts) (rules : Option (List
         split
         · split
           · exact hv
-          · exact ihC _ _ _ _ _ hv
+          · exact ihC _ _ _ _ _ _ hv
         · exact hv
       | file perm mt c => rw [walkNode]; exact hv; intro _ _ h; cases h
       | link t => rw [walkNode]; exact hv; intro _ _ h; cases h
       | special => rw [walkNode]; exact hv; intro _ _ h; cases h
-    · intro src dst path names st hst
+    · intro o src dst path names st hst
       cases names with
       | nil => rw [walkChildren]; exact hst
       | cons name rest =>
@@ -1948,14 +1950,25 @@ theorem rt_walk_names (fs : FS) (cwd : Str) (o : PackOpts) (rules : Option (List
         split
         · exact hst
         · rename_i child hc
-          have hn := ihN src dst (pathJoin path name) child st hst
+          have hn := ihN o src dst (pathJoin path name) child st hst
           split
-          · exact ihC _ _ _ _ _ hn
+          · exact ihC _ _ _ _ _ _ hn
           · split
-            · exact ihC _ _ _ _ _ hn
+            · exact ihC _ _ _ _ _ _ hn
             · exact hn
           · exact hn
-    · exact rt_visit_names fs cwd o rules root fuel ihN
+    · exact rt_visit_names fs cwd rules root fuel ihN
+
+theorem rt_walk_names (fs : FS) (cwd : Str) (o : PackOpts) (rules : Option (List Rule)) (root : Str) :
+    ∀ fuel : Nat,
+      (∀ src dst path node st, RtAllNames st →
+        RtAllNames (walkNode fs cwd o rules root src dst fuel path node st).1) ∧
+      (∀ src dst path names st, RtAllNames st →
+        RtAllNames (walkChildren fs cwd o rules root src dst fuel path names st).1) ∧
+      (∀ src dst path node st, RtAllNames st →
+        RtAllNames (visit fs cwd o rules root src dst fuel path node st).1) := fun fuel =>
+  ⟨(rt_walk_names_all fs cwd rules root fuel).1 o, (rt_walk_names_all fs cwd rules root fuel).2.1 o,
+    (rt_walk_names_all fs cwd rules root fuel).2.2 o⟩
 
 /-- every entry `Pack` writes — for any options, source and result — has the shape `RtNameOK` -/
 theorem rt_pack_names (fs : FS) (cwd : Str) (o : PackOpts) (src : Str) : RtAllNames (pack fs cwd o src).1 := by
